@@ -66,6 +66,12 @@ def dstep (s : St) (w : List String) : St × String :=
     let rc := parseNat! rc
     let r := ExoVerif.ConsKeys.step s (.undelegate (parseNat! op) rc)
     fin (r.1, if r.1 == Out.ok then { r.2 with nRecs := max s.nRecs (rc + 1) } else r.2)
+  | ["ck.undel", op, rc, via] =>
+    -- the entry point (keeper | precompile) is part of the op line; the hook is wired for both (Model: hooksWired)
+    let rc := parseNat! rc
+    let e : Entry := if via == "precompile" then .precompile else .keeper
+    let r := undelegateVia (hooksWired e) s (parseNat! op) rc
+    fin (r.1, if r.1 == Out.ok then { r.2 with nRecs := max s.nRecs (rc + 1) } else r.2)
   | ["ck.slashprobe", key, staked] =>
     -- slash / jail / ValidatorByConsAddr by consensus address in a discarded cache context: who is hit (state unchanged)
     let key := parseNat! key
